@@ -292,3 +292,54 @@ def rule_attr_positions(ctx):
     ctx.instance("parse_attr_with")
     if "attr.parse_args_with(|ps|parser.parse(ps))" not in A.fn_text(pa):
         ctx.report("pos:parse_args", ctx.where(pa.file, pa.node), "typed attributes are no longer parsed with `parse_args_with` (which requires the whole argument list to be consumed)", {})
+
+
+def _level_flag_sites(files, prefix="impl/src/"):
+    out = []
+    n = 0
+    for rel, f in sorted(files.items()):
+        if prefix and not rel.startswith(prefix):
+            continue
+        for fn in A.functions(f):
+            if fn.block is None:
+                continue
+            for b, ps in A.find(fn.block, "Expr::Binary"):
+                if A.kind(b["op"]) != "BinOp::And":
+                    continue
+                if ps and A.kind(ps[-1]) == "Expr::Binary" and A.kind(ps[-1]["op"]) == "BinOp::And":
+                    continue  # not the top of the conjunction
+                ops = []
+
+                def flat(e):
+                    e = A.peel(e)
+                    if A.kind(e) == "Expr::Binary" and A.kind(e["op"]) == "BinOp::And":
+                        flat(e["left"])
+                        flat(e["right"])
+                    else:
+                        ops.append(A.render(e))
+
+                flat(b)
+                n += 1
+                dflt = {m_.group(1) for o in ops for m_ in [re.fullmatch(r".*\bdefault_info\.(\w+)", o)] if m_}
+                own = {m_.group(2) for o in ops for m_ in [re.fullmatch(r"(\w+)\.(\w+)", o)] if m_ and m_.group(1) != "default_info"}
+                for flag in sorted(dflt & own):
+                    out.append((f, fn, b, flag, "&&".join(ops)))
+    return out, n
+
+
+def rule_level_flags(ctx):
+    """LEVEL-FLAGS: a per-variant / per-field flag of the legacy attribute state (`info.ref_`, `info.owned`, ..) already is 'the item's own setting, else the container's' (`MetaInfo::into_full`, rule OPT-ALG(meta)); no derive and-s it with the *container's* value of the same flag (`info.ref_ && state.default_info.ref_`): that makes a parameter the allow-list accepts on the variant - and the documentation describes there (`#[unwrap(ref)]` "on the enum declaration or that variant") - a silent no-op unless it is repeated on the enum. Closed set, expected empty; positive control rules/positive/levelflags.rs."""
+    import os
+
+    sites, n = _level_flag_sites(ctx.files)
+    for f, fn, b, flag, txt in sites:
+        key = f"{f.rel}::{fn.qual}:{flag}"
+        ctx.instance(f"level-flags:{key}")
+        ctx.report(f"level-flags:{key}", ctx.where(f, b), f"`{txt}` in `{fn.qual}`: the item's own `{flag}` counts only if the container sets `{flag}` too, so `#[..({flag.rstrip('_')})]` written on a variant / field alone is accepted and silently ignored (the own-else-inherited value is already what `info.{flag}` holds)", {})
+    ctx.cur.instances += 1
+    ctx.note(f"{n} conjunctions scanned, {len(sites)} mix an item's flag with the container's")
+    pos = os.path.join(os.path.dirname(os.path.dirname(os.path.dirname(os.path.dirname(os.path.abspath(__file__))))), "rules", "positive", "levelflags.rs")
+    got, _ = _level_flag_sites(A.load_files([pos]), prefix=None)
+    ctx.instance("level-flags:positive-control")
+    if sorted(x[3] for x in got) != ["owned", "ref_"]:
+        ctx.report("level-flags:positive-control", "rules/positive/levelflags.rs", f"the positive control yields {[x[3] for x in got]} instead of ['owned', 'ref_']", {})
